@@ -38,7 +38,7 @@ func (c04) Cases(tier string) int {
 func (c04) Describe() core.Info {
 	return core.Info{
 		Level:          "exploration",
-		Rule:           "typed random programs in which one target rule is perturbed (a head / negated-atom / comparison / function-argument variable replaced by a fresh or wildcard variable, a binding atom dropped, a column of a positive atom turned into a function expression (an input column) over an unbound, self-bound or elsewhere-bound variable, let statements reordered / self-referring / referring to an undefined variable, extra negated atoms whose variables are bound by later atoms; in a quarter of the cases the rule's variables are renamed to X0, X1, ..., the names the library generates itself for wildcards) and then submitted in every premise order (all permutations for <= 4 premises, 8 random ones otherwise). Judge 1: independent range-restriction judge on the clause as written (order independent): analysis must not accept an unsafe clause. Judge 2: for accepted safe programs, evaluation must not panic or fail with an unbound-variable class of error, all stored atoms are ground, and the result equals the reference model of the clause as written (so an accepted clause evaluated with a literal ignored is caught). Non-trivial: target rule has a negated atom or comparison and >= 2 premises; distinct by program text modulo the premise order.",
+		Rule:           "typed random programs in which one target rule is perturbed (a head / negated-atom / comparison / function-argument variable replaced by a fresh or wildcard variable, a binding atom dropped, a column of a positive atom turned into a function expression (an input column) over an unbound, self-bound or elsewhere-bound variable, let statements reordered / self-referring / referring to an undefined variable, a let statement over an alias variable that only a variable = variable equality (or a chain of two) connects to its binder, extra negated atoms whose variables are bound by later atoms; in a quarter of the cases the rule's variables are renamed to X0, X1, ..., the names the library generates itself for wildcards) and then submitted in every premise order (all permutations for <= 4 premises, 8 random ones otherwise). Judge 1: independent range-restriction judge on the clause as written (order independent): analysis must not accept an unsafe clause. Judge 2: for accepted safe programs, evaluation must not panic or fail with an unbound-variable class of error, all stored atoms are ground, and the result equals the reference model of the clause as written (so an accepted clause evaluated with a literal ignored is caught). Non-trivial: target rule has a negated atom or comparison and >= 2 premises; distinct by program text modulo the premise order.",
 		Assumptions:    []string{"rejection of a safe clause is not a violation (analysis may insist on a premise order)"},
 		PerCaseTimeout: 120e9,
 	}
@@ -68,7 +68,7 @@ func (c04) Gen(r *rand.Rand, tier string, i int) any {
 	}
 	rule := p.Rules[target]
 	body := append([]gen.LitV{}, rule.Body...)
-	mode := r.Intn(13)
+	mode := r.Intn(14)
 	// lower predicates for extra negated atoms
 	var lowerPreds []gen.PredSig
 	headLevel := 1
@@ -213,6 +213,94 @@ func (c04) Gen(r *rand.Rand, tier string, i int) any {
 			}
 			l.Args = args
 			body[k] = l
+		}
+	case mode == 13:
+		// a let-transform over an alias: the rule gets "A = V" (either orientation, anywhere in the body, also
+		// before the atom that binds V) and a statement let Z9 = fn:mult(A, 1) whose result goes into a numeric head column
+		var nums []string
+		for _, v := range varsOfBody() {
+			if strings.HasPrefix(v, "N") {
+				nums = append(nums, v)
+			}
+		}
+		var cols []int
+		for _, ps := range p.Preds {
+			if ps.Name == rule.Head.Pred && len(ps.Sorts) == len(rule.Head.Args) {
+				for i, s := range ps.Sorts {
+					if s == "num" {
+						cols = append(cols, i)
+					}
+				}
+			}
+		}
+		if len(nums) > 0 && len(cols) > 0 && len(rule.Transforms) == 0 {
+			v := gen.VarT(nums[r.Intn(len(nums))])
+			alias := gen.VarT("Al" + v.Name)
+			chain := r.Intn(3) == 0 // A = B, B = V
+			mid := gen.VarT("Am" + v.Name)
+			if chain {
+				body = append(body, gen.LitV{K: "eq", L: &alias, R: &mid}, gen.LitV{K: "eq", L: &mid, R: &v})
+			} else if r.Intn(2) == 0 {
+				body = append(body, gen.LitV{K: "eq", L: &alias, R: &v})
+			} else {
+				body = append(body, gen.LitV{K: "eq", L: &v, R: &alias})
+			}
+			rule.Transforms = [][]gen.StmtV{{{Var: "Z9", Fn: gen.FnT("fn:mult", alias, gen.ConstT(gen.Num(1)))}}}
+			args := append([]gen.TermV{}, rule.Head.Args...)
+			args[cols[r.Intn(len(cols))]] = gen.VarT("Z9")
+			rule.Head.Args = args
+		}
+	case mode == 12 && r.Intn(3) == 0 && len(rule.Transforms) == 1 && len(rule.Transforms[0]) > 0 && rule.Transforms[0][0].Var != "":
+		// a variable of a let statement is reached through an alias: A = V (or V = A) is added to the body, where it
+		// may come before the atom that binds V, and the statement uses A instead of V
+		st := append([]gen.StmtV{}, rule.Transforms[0]...)
+		k := r.Intn(len(st))
+		var uses []string
+		var w func(t gen.TermV)
+		w = func(t gen.TermV) {
+			if t.K == "var" && t.Name != "_" {
+				uses = append(uses, t.Name)
+			}
+			for _, a := range t.Args {
+				w(a)
+			}
+		}
+		w(st[k].Fn)
+		bodyVars := map[string]bool{}
+		for _, v := range varsOfBody() {
+			bodyVars[v] = true
+		}
+		var cand []string
+		for _, u := range uses {
+			if bodyVars[u] {
+				cand = append(cand, u)
+			}
+		}
+		if len(cand) > 0 {
+			v := cand[r.Intn(len(cand))]
+			alias := gen.VarT("Al" + v)
+			var rt func(t gen.TermV) gen.TermV
+			rt = func(t gen.TermV) gen.TermV {
+				if t.K == "var" && t.Name == v {
+					return alias
+				}
+				n := t
+				if len(t.Args) > 0 {
+					n.Args = make([]gen.TermV, len(t.Args))
+					for i, a := range t.Args {
+						n.Args[i] = rt(a)
+					}
+				}
+				return n
+			}
+			st[k].Fn = rt(st[k].Fn)
+			rule.Transforms = [][]gen.StmtV{st}
+			vt := gen.VarT(v)
+			if r.Intn(2) == 0 {
+				body = append(body, gen.LitV{K: "eq", L: &alias, R: &vt})
+			} else {
+				body = append(body, gen.LitV{K: "eq", L: &vt, R: &alias})
+			}
 		}
 	case mode == 12:
 		// let statements out of order, referring to themselves, or to a variable nothing defines
